@@ -424,6 +424,30 @@ def with_sk(strategy):
     return st.builds(lambda c, k: dict(c, sk_config=k), strategy, st.sampled_from(SK_CONFIGS))
 
 
+COPIES = [None, None, None, "pickle", "deepcopy", "joblib"]
+
+
+def round_trip(obj, how):
+    """the object after a serialisation round trip (None: the object itself).  A copy is documented to be interchangeable with the object
+    (pickle / joblib persistence, copy.deepcopy as used by clone for non-estimator parameters): every oracle applies to it unchanged."""
+    if not how:
+        return obj
+    if how == "pickle":
+        import pickle
+        return pickle.loads(pickle.dumps(obj))
+    if how == "deepcopy":
+        import copy
+        return copy.deepcopy(obj)
+    if how == "joblib":
+        import io
+        import joblib
+        buf = io.BytesIO()
+        joblib.dump(obj, buf)
+        buf.seek(0)
+        return joblib.load(buf)
+    raise KeyError(how)
+
+
 def with_np(strategy):
     """adds the flag `np_params` (one case in three) to the dict cases of a strategy"""
     from hypothesis import strategies as st
